@@ -237,6 +237,31 @@ def quiet():
             yield
 
 
+class CpuTimeout(Exception):
+    pass
+
+
+@contextlib.contextmanager
+def cpu_limit(seconds):
+    """Abort a single update that burns more than `seconds` of *CPU* time (independent of machine load): a
+    healthy update needs milliseconds, a run-away integrator 100 000 steps.  Recorded as an exception."""
+    import signal
+
+    def handler(signum, frame):
+        raise CpuTimeout()
+
+    old = signal.signal(signal.SIGVTALRM, handler)
+    signal.setitimer(signal.ITIMER_VIRTUAL, seconds)
+    try:
+        yield
+    finally:
+        signal.setitimer(signal.ITIMER_VIRTUAL, 0)
+        signal.signal(signal.SIGVTALRM, old)
+
+
+CPU_LIMIT = 6.0
+
+
 def tol_of(eff, dtype):
     if str(dtype) in ("complex64", "float32"):
         return 3e-4
@@ -322,11 +347,13 @@ def run_exact(tid, rng, kind, method, hrep, d, calls, cbkind, t0, recs, dtype="c
         if call[0] == "u":
             exc = ""
             try:
-                with quiet():
+                with quiet(), cpu_limit(CPU_LIMIT):
                     evo.update_to(t0 + call[1] * HP)
             except Exception as ex:  # noqa
                 exc = type(ex).__name__
             step_record("update_to", call[1], exc, None)
+            if exc == "CpuTimeout":
+                break
         else:
             qs = list(call[1])
             held = []
@@ -339,7 +366,7 @@ def run_exact(tid, rng, kind, method, hrep, d, calls, cbkind, t0, recs, dtype="c
             for q in qs:
                 exc, y = "", None
                 try:
-                    with quiet():
+                    with quiet(), cpu_limit(CPU_LIMIT):
                         y = next(gen)
                 except Exception as ex:  # noqa
                     exc = type(ex).__name__
@@ -351,6 +378,8 @@ def run_exact(tid, rng, kind, method, hrep, d, calls, cbkind, t0, recs, dtype="c
             for r, y in held:
                 if y is not None:
                     r["yok"], r["y"] = snap_state(y, kind, d, tol)
+            if held and held[-1][0]["exc"] == "CpuTimeout":
+                break
     return evo
 
 
@@ -485,11 +514,13 @@ def run_float(tid, rng, sysm, p0, kind, method, hrep, calls, cbkind, recs, small
         if call[0] == "u":
             exc = ""
             try:
-                with quiet():
+                with quiet(), cpu_limit(CPU_LIMIT):
                     evo.update_to(call[1])
             except Exception as ex:  # noqa
                 exc = type(ex).__name__
             step_record("update_to", call[1], exc, None)
+            if exc == "CpuTimeout":
+                break
         else:
             held = []
             try:
@@ -501,7 +532,7 @@ def run_float(tid, rng, sysm, p0, kind, method, hrep, calls, cbkind, recs, small
             for t in call[1]:
                 exc, y = "", None
                 try:
-                    with quiet():
+                    with quiet(), cpu_limit(CPU_LIMIT):
                         y = next(gen)
                 except Exception as ex:  # noqa
                     exc = type(ex).__name__
@@ -516,6 +547,8 @@ def run_float(tid, rng, sysm, p0, kind, method, hrep, calls, cbkind, recs, small
                         r["dq_y"] = qdiff(np.asarray(y), r["_pt"], 1e-13)
                     except Exception:  # noqa
                         r["dq_y"] = 999990
+            if held and held[-1][0]["exc"] == "CpuTimeout":
+                break
     for r in recs:
         r.pop("_pt", None)
     # what the integrator showed the callbacks on the way
